@@ -871,6 +871,7 @@ class Body:
             return state
 
         live = self.live_blocks
+        self.idom  # makes sure the reverse post-order exists
         IN = {b: True for b in live}
         IN[0] = False
         OUT = {b: True for b in live}
